@@ -366,6 +366,123 @@ End == "<end>"
 TokAt(ts, i) == IF i <= Len(ts) THEN ts[i] ELSE End
 
 (* ------------------------------------------------------------------ *)
+(* the tokeniser of expr_fn on characters:                            *)
+(*   lower(text), then one of: digits [. digits-or-none] | . digits |  *)
+(*   letters | != | <> | >= | <= | any other non-blank character      *)
+(* Lexemes are sequences of one-character strings.                    *)
+(* ------------------------------------------------------------------ *)
+CharsOf ==
+  ("0" :> <<"0">>)
+  @@ ("1" :> <<"1">>)
+  @@ ("2" :> <<"2">>)
+  @@ ("3" :> <<"3">>)
+  @@ ("4" :> <<"4">>)
+  @@ ("5" :> <<"5">>)
+  @@ ("6" :> <<"6">>)
+  @@ ("7" :> <<"7">>)
+  @@ ("8" :> <<"8">>)
+  @@ ("9" :> <<"9">>)
+  @@ ("10" :> <<"1", "0">>)
+  @@ ("12" :> <<"1", "2">>)
+  @@ ("0.5" :> <<"0", ".", "5">>)
+  @@ ("1.5" :> <<"1", ".", "5">>)
+  @@ ("2.5" :> <<"2", ".", "5">>)
+  @@ ("3.5" :> <<"3", ".", "5">>)
+  @@ (".5" :> <<".", "5">>)
+  @@ ("2." :> <<"2", ".">>)
+  @@ ("0.25" :> <<"0", ".", "2", "5">>)
+  @@ ("0.75" :> <<"0", ".", "7", "5">>)
+  @@ ("1.25" :> <<"1", ".", "2", "5">>)
+  @@ ("400" :> <<"4", "0", "0">>)
+  @@ ("5000" :> <<"5", "0", "0", "0">>)
+  @@ ("e" :> <<"e">>)
+  @@ ("pi" :> <<"p", "i">>)
+  @@ ("not" :> <<"n", "o", "t">>)
+  @@ ("ceil" :> <<"c", "e", "i", "l">>)
+  @@ ("trunc" :> <<"t", "r", "u", "n", "c">>)
+  @@ ("floor" :> <<"f", "l", "o", "o", "r">>)
+  @@ ("abs" :> <<"a", "b", "s">>)
+  @@ ("sqrt" :> <<"s", "q", "r", "t">>)
+  @@ ("exp" :> <<"e", "x", "p">>)
+  @@ ("ln" :> <<"l", "n">>)
+  @@ ("sin" :> <<"s", "i", "n">>)
+  @@ ("cos" :> <<"c", "o", "s">>)
+  @@ ("tan" :> <<"t", "a", "n">>)
+  @@ ("acos" :> <<"a", "c", "o", "s">>)
+  @@ ("asin" :> <<"a", "s", "i", "n">>)
+  @@ ("atan" :> <<"a", "t", "a", "n">>)
+  @@ ("div" :> <<"d", "i", "v">>)
+  @@ ("mod" :> <<"m", "o", "d">>)
+  @@ ("round" :> <<"r", "o", "u", "n", "d">>)
+  @@ ("and" :> <<"a", "n", "d">>)
+  @@ ("or" :> <<"o", "r">>)
+  @@ ("foo" :> <<"f", "o", "o">>)
+  @@ ("inf" :> <<"i", "n", "f">>)
+  @@ ("nan" :> <<"n", "a", "n">>)
+  @@ ("+" :> <<"+">>)
+  @@ ("-" :> <<"-">>)
+  @@ ("*" :> <<"*">>)
+  @@ ("/" :> <<"/">>)
+  @@ ("^" :> <<"^">>)
+  @@ ("=" :> <<"=">>)
+  @@ ("!=" :> <<"!", "=">>)
+  @@ ("<>" :> <<"<", ">">>)
+  @@ ("<" :> <<"<">>)
+  @@ (">" :> <<">">>)
+  @@ ("<=" :> <<"<", "=">>)
+  @@ (">=" :> <<">", "=">>)
+  @@ ("(" :> <<"(">>)
+  @@ (")" :> <<")">>)
+  @@ ("." :> <<".">>)
+  @@ ("#" :> <<"#">>)
+  @@ ("!" :> <<"!">>)
+Vocabulary == DOMAIN CharsOf
+LowerChar == ("A" :> "a") @@ ("B" :> "b") @@ ("C" :> "c") @@ ("D" :> "d") @@ ("E" :> "e") @@ ("F" :> "f")
+          @@ ("G" :> "g") @@ ("H" :> "h") @@ ("I" :> "i") @@ ("J" :> "j") @@ ("K" :> "k") @@ ("L" :> "l")
+          @@ ("M" :> "m") @@ ("N" :> "n") @@ ("O" :> "o") @@ ("P" :> "p") @@ ("Q" :> "q") @@ ("R" :> "r")
+          @@ ("S" :> "s") @@ ("T" :> "t") @@ ("U" :> "u") @@ ("V" :> "v") @@ ("W" :> "w") @@ ("X" :> "x")
+          @@ ("Y" :> "y") @@ ("Z" :> "z")
+UpperChar == [c \in {LowerChar[k] : k \in DOMAIN LowerChar} |-> CHOOSE k \in DOMAIN LowerChar : LowerChar[k] = c]
+ToLower(cs) == [i \in 1..Len(cs) |-> IF cs[i] \in DOMAIN LowerChar THEN LowerChar[cs[i]] ELSE cs[i]]
+ToUpper(cs) == [i \in 1..Len(cs) |-> IF cs[i] \in DOMAIN UpperChar THEN UpperChar[cs[i]] ELSE cs[i]]
+IsDigitC(c) == c \in {"0", "1", "2", "3", "4", "5", "6", "7", "8", "9"}
+IsLetterC(c) == c \in {LowerChar[k] : k \in DOMAIN LowerChar}
+IsSpaceC(c) == c \in {" ", "\n", "\t"}
+
+\* index of the last character of the run of digits / letters starting at i (i - 1 if none)
+RECURSIVE RunEnd(_, _, _)
+RunEnd(cs, i, letters) ==
+  IF i <= Len(cs) /\ (IF letters THEN IsLetterC(cs[i]) ELSE IsDigitC(cs[i])) THEN RunEnd(cs, i + 1, letters) ELSE i - 1
+
+RECURSIVE LexFrom(_, _)
+LexFrom(cs, i) ==
+  IF i > Len(cs) THEN <<>>
+  ELSE LET c == cs[i]
+           nxt == IF i < Len(cs) THEN cs[i + 1] ELSE " "
+           \* end index of the lexeme starting at i
+           j == IF IsDigitC(c) THEN
+                   (LET d == RunEnd(cs, i, FALSE) IN
+                    IF d < Len(cs) /\ cs[d + 1] = "." THEN RunEnd(cs, d + 2, FALSE) ELSE d)
+                ELSE IF c = "." /\ IsDigitC(nxt) THEN RunEnd(cs, i + 1, FALSE)
+                ELSE IF IsLetterC(c) THEN RunEnd(cs, i, TRUE)
+                ELSE IF (c = "!" /\ nxt = "=") \/ (c = "<" /\ nxt \in {">", "="}) \/ (c = ">" /\ nxt = "=") THEN i + 1
+                ELSE i
+       IN IF IsSpaceC(c) THEN LexFrom(cs, i + 1)
+          ELSE <<SubSeq(cs, i, j)>> \o LexFrom(cs, j + 1)
+Tokenize(cs) == LexFrom(ToLower(cs), 1)
+
+\* two lexemes written without a blank between them would lex differently
+\* (the rule the harness uses when it renders token lists "tight")
+NeedSpace(a, b) ==
+  LET ca == CharsOf[a]
+      la == ca[Len(ca)]
+      fb == CharsOf[b][1] IN
+  \/ IsLetterC(la) /\ IsLetterC(fb)
+  \/ IsDigitC(fb) /\ (IsDigitC(la) \/ la = ".")
+  \/ fb = "." /\ \A i \in 1..Len(ca) : IsDigitC(ca[i])
+  \/ (a = "!" /\ fb = "=") \/ (a = "<" /\ fb \in {">", "="}) \/ (a = ">" /\ fb = "=")
+
+(* ------------------------------------------------------------------ *)
 (* expression trees: <<"lit", tok>>, <<"un", op, a>>, <<"bin", op, a, b>> *)
 (* ------------------------------------------------------------------ *)
 RECURSIVE Fold(_)
